@@ -258,9 +258,24 @@ def skeletons(tier):
         impls = default_impls(st) + [(S.A("i1"), "can", st[1][0], 1)]
         return dict(structs=st, enums=en, impls=impls, services=[], devices=[])
 
+    def k_combined(S):  # every rule at once: 2 structs x 2 fields, enum x 2, 2 extra bindings, service + device
+        st = [(S.A("s1"), [(S.A("f1"), ("u", S.I("w1", 1, 64))), (S.A("f2"), U8)]),
+              (S.A("s2"), [(S.A("g1"), U8), (S.A("g2"), U8)])]
+        en = [(S.A("e1"), [(S.A("n1"), S.I("v1", -2 ** 31, 2 ** 31 - 1)), (S.A("n2"), S.I("v2", -2 ** 31, 2 ** 31 - 1))])]
+        impls = default_impls(st) + [(S.A("i1"), "can", S.A("t1"), S.I("id1", 0, 2047)),
+                                     (S.A("i2"), S.A("p2"), st[1][0], S.I("id2", 0, 2047))]
+        return dict(structs=st, enums=en, impls=impls, services=[S.A("sv1")], devices=[(S.A("d1"), [S.A("r1")])])
+
+    def k_three_structs(S):
+        st = [(S.A(f"s{i}"), [(S.A(f"f{i}a"), U8), (S.A(f"f{i}b"), U8), (S.A(f"f{i}c"), U8)]) for i in range(3)]
+        return dict(structs=st, enums=[], impls=default_impls(st), services=[], devices=[])
+
     sk = {"bodyless": k_bodyless, "size_compound": k_size_compound, "types": k_types, "fields": k_fields, "empty_struct": k_empty_struct, "enum": k_enum, "impls": k_impls,
           "devices": k_devices, "devices_nosvc": k_devices_nosvc, "bind": k_bind, "bind_noid": k_bind_noid,
           "size": k_size}
+    if tier == "thorough":
+        sk["combined"] = k_combined
+        sk["three_structs"] = k_three_structs
     return sk
 
 
@@ -360,7 +375,7 @@ def run_c09(tier: str) -> int:
             if name in ("bind", "bind_noid") and plugin == "general":
                 continue  # bindings to unknown structs are not constrained by the general rules: still run
             for variant in ((0, 1) if tier == "quick" else (0, 1, 2)):
-                if plugin != "general" and name not in ("bind", "bind_noid", "bodyless", "size", "size_compound", "impls", "types") and variant:
+                if plugin != "general" and name not in ("bind", "bind_noid", "bodyless", "size", "size_compound", "impls", "types", "combined") and variant:
                     continue
                 cases.append((name, plugin, variant, tier))
     for name in ("bind", "bind_noid"):
